@@ -79,10 +79,7 @@ ASSUME \A gi \in 1..Len(Gates) : IsChannel(Gates[gi]) \/ (GateSymplectic(Gates[g
 GamHermitian == MEq(Gam, MDag(Gam))
 CCR == /\ \A i, j \in 1..D : QEq(QSub(Gam[i][j], Gam[D + j][D + i]), IF i = j THEN Q1 ELSE Q0)
        /\ \A i, j \in 1..D : QEq(Gam[i][D + j], Gam[j][D + i])
-(* a + b sqrt2 >= 0 for integers a, b *)
-NonNegS(a, b) == IF a >= 0 /\ b >= 0 THEN TRUE ELSE IF a <= 0 /\ b <= 0 THEN FALSE
-                 ELSE IF a >= 0 THEN a * a >= 2 * b * b ELSE 2 * b * b >= a * a
-DiagonalNonNegative == \A i \in 1..(2 * D) : QIsReal(Gam[i][i]) /\ NonNegS(Gam[i][i].n[1], Gam[i][i].n[2])
+DiagonalNonNegative == \A i \in 1..(2 * D) : QIsReal(Gam[i][i]) /\ SNonNeg(Gam[i][i].n[1], Gam[i][i].n[2])
 
 (* ---- representations (C14) ---- *)
 W0 == [i \in 1..(2 * D) |-> [j \in 1..(2 * D) |->
